@@ -104,6 +104,9 @@ fn one_poll<const K: usize, const C: usize>() {
     // after EVERY poll, not only a pending one: a frame left in the buffer must still be marked readable, otherwise the next
     // poll reads from the transport first (it may stall on Pending, or surface a later I/O error before an earlier frame)
     assert!(len_decode(&f.read_buf).is_none() || f.flags.contains(Flags::READABLE), "J: READABLE clear => no frame buffered");
+    // ... and the other half of J: EOF is set only if the transport has reported end of stream (before this poll, or by answering
+    // Eof to the read of this poll); in particular an I/O error or a Pending read is not an end of stream - the next poll reads again
+    assert!(!f.flags.contains(Flags::EOF) || eof || (first == Ans::Eof && f.io.reads >= 1), "J: EOF set => the transport reported end of stream");
     core::mem::forget(f);
 }
 #[kani::proof] #[kani::unwind(10)] fn c13_poll_k0_c1() { one_poll::<0, 1>() }
